@@ -474,6 +474,106 @@ def r4(k: Kit) -> None:
               'options', va.loc(va.node))
 
 
+# ------------------------------------------------------------------- R5
+
+# lengths of a genuine raw signature per key class; None = any length
+SIG_LEN = {
+    'rsa.RSAKey': 'modulus',
+    'dsa._DSAKey': 40,
+    'eddsa._Ed25519Key': 64, 'eddsa._Ed448Key': 114, 'eddsa._EdKey': 64,
+    'sk_eddsa._SKEd25519Key': 64,
+    'ecdsa._ECKey': None, 'sk_ecdsa._SKECDSAKey': None,
+}
+
+
+def r5(k: Kit) -> None:
+    rep = k.rep
+    idx = k.idx
+    rep.rule('C16.R5', 'a genuine signature is never refused before the '
+             'primitive sees it: each verify_ssh evaluated on a well-formed '
+             'blob of the right length (RSA: ceil(bits/8) for modulus sizes '
+             'that are and are not multiples of 8; DSA 40; Ed25519 64; '
+             'Ed448 114), touch flag set, webauthn prefix matching, returns '
+             'the primitive\'s verdict')
+    base = idx.cls('public_key.SSHKey')
+    n = 0
+    for c in idx.all_subclasses(base):
+        fi = c.methods.get('verify_ssh')
+        if fi is None:
+            continue
+        qual = f'{fi.module.short}.{c.name}'
+        if qual not in SIG_LEN:
+            rep.error('C16.R5', key(fi, 'model'), f'no genuine-signature '
+                      f'model for {qual}')
+            continue
+        kind = SIG_LEN[qual]
+        cases = [(b, (b + 7) // 8) for b in
+                 (1023, 1024, 1025, 2047, 2048, 2049, 3072, 4095, 4096,
+                  8191)] if kind == 'modulus' else [(0, kind)]
+        algs = [b'x']
+        if 'sk_ecdsa' in qual:
+            algs = [b'sk-ecdsa-sha2-nistp256@openssh.com',
+                    b'webauthn-sk-ecdsa-sha2-nistp256@openssh.com']
+        bad = None
+        for bits, slen in cases:
+            for alg in algs:
+                for touch in (False, True):
+                    n += 1
+
+                    def on_call(name, args, env, bits=bits):
+                        if name.endswith('bit_length'):
+                            return bits
+                        if name == 'self._key.verify':
+                            return True
+                        if name.endswith('.get_byte'):
+                            return 1          # user presence flag set
+                        if name.endswith('.get_uint32'):
+                            return 7
+                        if name.endswith('.startswith'):
+                            return True
+                        if name.endswith('.get_mpint'):
+                            return 5
+                        return Obj(name.rsplit('.', 1)[-1])
+                    atoms = {'len(sig)': slen} if slen is not None else {}
+                    val = {'self._touch_required': touch,
+                           'self._application': Obj('app'),
+                           'self._app_hash': Obj('apphash'),
+                           'self._hash_alg': 'sha256',
+                           'self._key': Obj('KEY')}
+                    try:
+                        o = evaluate(idx, fi.module, fi.node.body, val,
+                                     {'data': Obj('data'),
+                                      'sig_algorithm': alg,
+                                      'packet': Obj('packet')},
+                                     on_call, atoms)
+                    except NotEvaluable as exc:
+                        rep.error('C16.R5', key(fi, 'not-evaluable'),
+                                  str(exc))
+                        bad = 'error'
+                        break
+                    if not (o.kind == 'return' and o.value is True and
+                            o.called('self._key.verify')):
+                        bad = bad or (
+                            f'genuine signature ({slen} bytes'
+                            + (f', {bits}-bit modulus' if bits else '') +
+                            f', touch_required={touch}) is refused: '
+                            f'{o.kind} {o.value!r} without asking the '
+                            'primitive')
+                if bad == 'error':
+                    break
+            if bad == 'error':
+                break
+        if bad == 'error':
+            continue
+        rep.check(bad is None, 'C16.R5', key(fi, 'genuine signature reaches '
+                                             'the primitive'),
+                  'well-formed signatures of every modelled length are '
+                  'passed to the primitive and its verdict returned',
+                  str(bad), fi.loc(fi.node))
+    rep.count('eval.verify_ssh_cases', n)
+    rep.floor('C16.R5', 'verify_ssh cases', n, 20)
+
+
 def run(idx, rep, tier):
     k = Kit(idx, rep)
     rep.assumptions += NOT_DECIDED
@@ -482,3 +582,4 @@ def run(idx, rep, tier):
     rep.rule('C16.R3', 'certificate validity table (type, window, principal)')
     cert_validity(k, 'C16.R3')
     r4(k)
+    r5(k)
